@@ -59,8 +59,16 @@ theorem C08X_stop_quiescent (hp : (tasksOf prog).Nodup) (h : Reach max timeout p
   rw [hq, hh] at this
   simpa using this
 
-/-- the step the driver executes is a step of the relation the theorems quantify over -/
-theorem xstep?_sound' {t : State} {l : Label} (h : xstep? s l = some t) : Step s t := xstep?_sound h
+/-- **C08X (progress inside stop)**: while the owner is inside `stop()` (flag cleared … final clear() pending) some step of the
+    code is always enabled — the owner's own, or a step of the worker it is joining (which is never blocked un-notified: the flag
+    write and the predicate evaluation exclude each other; a running task body is one finite step) — whatever the workers were
+    doing: idle, expired, retired but not reaped, completing.  (That stop() then RETURNS in every fair run needs a decreasing
+    measure; it is proved for non-expiring workers as TPool.C08_stop_measure / C08_stop_returns.) -/
+theorem C08X_stop_progress (h : Reach max timeout prog s) (hs : inStop s.owner) : ∃ t, Step s t :=
+  stop_progress (reach_inv h).1 (reach_pinv h) hs
+
+/- `TPoolX.xstep?_sound` (Tulz/Proofs/PoolX.lean): `xstep? s l = some t → Step s t` — the step the driver executes is a step of the
+   relation the theorems quantify over. -/
 
 /-! ### non-vacuity: a worker idles past the timeout, update() wakes it, it retires, the next update() reaps it -/
 
@@ -120,6 +128,14 @@ theorem exStopped_reach : Reach 1 (some 5) exProg exStoppedState :=
 
 example : ∃ s, Reach 1 (some 5) exProg s ∧ s.stopped = true ∧ s.ws.length = 2 ∧ s.submitted = [1, 2] :=
   ⟨exStoppedState, exStopped_reach, rfl, rfl, rfl⟩
+
+/-- inside stop() (hypothesis of C08X_stop_progress): flag cleared, notify_all done, the owner joins worker 0, which is still in
+    the middle of task 1 -/
+example : ∃ s, Reach 1 (some 5) [.start 1, .stop] s ∧ inStop s.owner ∧ s.owner = .join [0] [] ∧ (s.ws.map (·.pc)) = [.running 1] :=
+  ⟨{ queue := [], running := false, pool := [0], ws := [⟨.running 1, 0⟩], owner := .join [0] [], max := 1, timeout := some 5, now := 0,
+     submitted := [1], runs := [1], finished := [], destroyed := [], dropped := [], stopped := false },
+   xrun?_reach (ls := [.owner none, .owner none, .owner none, .worker 0, .owner none, .owner none]) Reach.init (by decide),
+   Or.inr (Or.inl ⟨_, _, rfl⟩), rfl, rfl⟩
 
 example : (tasksOf exProg).Nodup := by decide
 
